@@ -62,16 +62,23 @@ def _search_batch(job):
 
 
 def _grep_case(job):
-    """end to end: which lines does `bumpver grep` report, which does `update` rewrite"""
+    """end to end: which lines does `bumpver grep` report (matches placed from line 2 on: a match on line 1 of a longer file trips the unrelated defect S11)"""
     lit, idx = job
+    import re
     pat = spell(lit) + " YYYY.MM"
     with drive.scratch_dir("c07") as d:
         proj = project.Project(os.path.join(d, "p"), vcs=None)
-        lines = ["first line", "%s 2021.5" % lit, "x%s 2021.5" % lit[1:] if len(lit) > 1 else "q 2021.5", "%s 2021,5" % lit, "tail"]
+        lines = ["first line", "%s 2021.5" % lit, ("x%s 2021.5" % lit[1:]) if len(lit) > 1 else "q 2021.5", "%s 2021,5" % lit, "keep", "tail %s 2021.12 end" % lit, "last"]
         proj.write("f.txt", "\n".join(lines) + "\n")
         r = drive.cli(["grep", "--", pat, "f.txt"], cwd=proj.root)
-        reported = sorted(set(int(ln.split(":", 1)[0]) for ln in r.stdout.splitlines() if ln[:4].strip().isdigit() and ":" in ln[:6]))
-    return dict(lit=lit, pat=pat, lines=lines, exit=r.exit, out=r.stdout, exc=r.exc)
+    # every match is printed as a block of three numbered lines (previous, matched, next): matches are placed so that no block is clipped
+    nums = [int(m.group(1)) for m in (re.match(r"^\s*(\d+): ", ln) for ln in r.stdout.split("\n")) if m]
+    reported = set(nums[i + 1] for i in range(0, len(nums) - 2, 3)) if len(nums) % 3 == 0 else set([-1])
+    try:
+        P = glue.parse_pattern(pat, file_pattern=True)
+    except glue.OutsideGrammar:
+        return None
+    return dict(ev="grep", P=P, lines=[glue.cp(x) for x in lines], reported=sorted(reported), pat=pat, kind="grep", exc=r.exc or "", exit=r.exit, dbg="grep %r -> lines %s" % (pat, sorted(reported)), out=r.stdout[:300])
 
 
 def run(ctx):
@@ -147,19 +154,21 @@ def run(ctx):
         chars = sorted(set(c for c in body if c in "|^$\\") - (set() if e["kind"] != "anchored" else set()))
         facts = dict(clause=f["clause"], kind=e["kind"], bar="|" in body, residual_meta=_residual(body))
         ctx.violation(facts, case=dict(pattern=pat, line=glue.uncp(e["line"]), code_hit=e["hit"]), expected=f["detail"], observed=e["hit"])
-    # end to end through `bumpver grep`
+    # end to end through `bumpver grep`: `grep` events (which lines are reported)
     gl = [l for l in rng.sample(lits, min(len(lits), ctx.pick(150, 3000))) if not l.startswith("^") and l.strip() == l and l]
-    n_grep = 0
-    for g in drive.pmap(_grep_case, [(l, i) for i, l in enumerate(gl)], hooks=False, chunksize=10):
-        n_grep += 1
-        want_line2 = True
-        got2 = "   2: " in g["out"] and (g["lit"] + " 2021.5") in g["out"]
-        got4 = (g["lit"] + " 2021,5") in g["out"].replace("   3: ", "").replace("   5: ", "") and "   4: %s 2021,5" % g["lit"] in g["out"] and False
-        if g["exc"]:
-            ctx.divergence("grep raised", dict(pattern=g["pat"], exc=g["exc"]))
-        elif not got2:
-            body = g["pat"]
-            ctx.violation(dict(clause="grep:misses-the-text", kind="grep", bar="|" in body, residual_meta=_residual(body)), case=dict(pattern=g["pat"], lines=g["lines"], out=g["out"][:300]))
+    gev = [g for g in drive.pmap(_grep_case, [(l, i) for i, l in enumerate(gl)], hooks=False, chunksize=10) if g]
+    for i, e in enumerate(gev):
+        e["id"] = i + 1
+    gfails, st = tlc.validate_events("Trace_Text", [{k: v for k, v in e.items() if k not in ("pat", "kind", "exc", "exit", "dbg", "out")} for e in gev], name="C07g")
+    ctx.add_trace(st)
+    gby = {e["id"]: e for e in gev}
+    n_grep = len(gev)
+    for f in gfails:
+        e = gby[f["id"]]
+        if e["exc"]:
+            ctx.divergence("grep raised", dict(pattern=e["pat"], exc=e["exc"]))
+            continue
+        ctx.violation(dict(clause=f["clause"], kind="grep", bar="|" in e["pat"], residual_meta=_residual(e["pat"])), case=dict(pattern=e["pat"], out=e["out"]), expected=f["detail"])
     ctx.count("grep_cases", n_grep)
     ctx.evaluations = len(events) + n_grep
     for e in events:
